@@ -140,16 +140,21 @@ PROPS = {
     "C14": {
         "level": "other",
         "verus": [],
+        "family": ("c14", {"quick": [], "thorough": []}),
         "kani": {"quick": ["compute_line_number_bounded", "parse_error_new_bounded", "clip_complete", "resolve_is_clip", "parsed_context_line_and_slice"], "thorough": []},
         "technique": "Kani on the real okane-core crate: harness modules injected next to parse/error.rs and parse/adaptor.rs; loop-free harnesses over the full usize domain are complete proofs, string harnesses are bounded",
         "explanation": "PARTIAL / BOUNDED.  On the real compiled code: compute_line_number(s, pos) = 1 + number of LF before pos; ParsedContext::compute_line_start is that at the entry's span start and as_str is the "
                        "entry's slice; ParseError::new reports the first line of the failed entry, an error span starting at the failure offset and ending inside the remaining text, for every entry start and failure "
-                       "offset (text <= 4 characters over {LF, CR, a, ;, a 3-byte character}) — bounded; clip / ParsedSpan::resolve map a tracked span inside the entry to entry-relative offsets without underflow — complete (loop-free, full usize).",
+                       "offset (text <= 4 characters over {LF, CR, a, ;, a 3-byte character}) — bounded; clip / ParsedSpan::resolve map a tracked span inside the entry to entry-relative offsets without underflow — complete (loop-free, full usize).  "
+                       "NOT decided by those harnesses: which file path reaches the diagnostic, and the rendering.  They are exercised, bounded, by the c14 family: one invalid entry (two syntax errors, unbalanced, false "
+                       "assertion, two omitted amounts, zero cost) after five kinds of valid content (nothing, comments and blank lines, other entries, multi-byte text, declarations) x LF / CRLF x with / without a following entry "
+                       "x {root file, included file, file included from an included file} = 360 ledgers through the real report::process: the rendered diagnostic must name the containing file (and no other) and every line "
+                       "number it shows must lie within the entry.",
         "units_doc": ["core/src/parse/error.rs: compute_line_number, ParseError::new", "core/src/parse/adaptor.rs: clip, ParsedSpan::resolve, ParsedContext::{compute_line_start, as_str}"],
         "assumptions": ["Kani 0.68 / CBMC 6.11 model of std", "text restricted to <= 4 characters over {LF, CR, a, ;, あ (3 bytes)} (both the ParseError and the ParsedContext harness)",
                         "TrackedSpan constructor injected under cfg(kani) (the real one is cfg(test))"],
-        "bounded": ["text <= 4 characters (<= 12 bytes) for compute_line_number / ParseError::new, ASCII <= 6 bytes for ParsedContext"],
-        "not_decided": ["which file path reaches ErrorContext::new (load_impl, C11)", "rendering by annotate_snippets", "that spans produced by winnow lie inside their entry"],
+        "bounded": ["text <= 4 characters (<= 12 bytes) for compute_line_number / ParseError::new / ParsedContext", "c14 family: 360 ledgers with exactly one invalid entry"],
+        "not_decided": ["which file path reaches ErrorContext::new (bounded family only)", "rendering by annotate_snippets (bounded family only)", "that spans produced by winnow lie inside their entry (bounded family only)"],
         "unwind_is_violation": ["parse_error_new_bounded"],
     },
     "C07": {
@@ -339,12 +344,12 @@ PROPS = {
         "technique": "contract-based deductive verification of the importer's sign and date helpers (Verus on functions extracted from /repo); the importer's control structure (serde-derived XML model, iterator chains) is "
                      "decided only by a bounded sweep of generated consistent statements through the real importer and okane's own book-keeping",
         "explanation": "PARTIAL / BOUNDED.  Verus proves xmlnode::Amount::to_data (credit = +amount, debit = -amount, the statement's currency: the function every entry, detail, balance and charge amount goes "
-                       "through) and Entry::guess_value_date (value date, else booking date).  NOT decided by proof: iso_camt053::import itself (opening-balance transaction first, one transaction per entry or per detail, "
+                       "through), Entry::guess_value_date (value date, else booking date) and Txn::effective_date (the booking date becomes the effective date only when it differs from the transaction date).  NOT decided by proof: iso_camt053::import itself (opening-balance transaction first, one transaction per entry or per detail, "
                        "effective date = booking date when different, closing balance asserted on the last transaction, row order) - serde-derived types and iterator chains are outside Verus, and the Kani route was "
                        "measured as intractable (DESIGN 10.3).  Those clauses are exercised, bounded, by the c18 family: 5 generated consistent statements (positive / zero / negative opening balance, entries "
                        "with and without value date, batched details summing to the entry) x both row orders through the real import + to_double_entry, then - after a funding transaction giving the account its opening "
                        "balance - through okane's own report::process, which must accept the ledger and end the account at the closing balance.",
-        "units_doc": ["cli/src/import/iso_camt053.rs: xmlnode::Amount::to_data, xmlnode::Entry::guess_value_date", "cli/src/import/amount.rs: Neg for OwnedAmount (charges)"],
+        "units_doc": ["cli/src/import/iso_camt053.rs: xmlnode::Amount::to_data, xmlnode::Entry::guess_value_date", "cli/src/import/single_entry.rs: Txn::effective_date", "cli/src/import/amount.rs: Neg for OwnedAmount (charges)"],
         "assumptions": [L0_DECIMAL, "assumed L0 model of chrono::NaiveDate", "stand-ins for xmlnode::Entry (the two date members) and DateHolder::as_naive_date (vx/prelude/camt_stub.rs)"],
         "bounded": ["c18 family: 5 statements x 2 row orders = 10 imports (<= 3 entries, <= 3 details per entry, one currency, no charges, no currency exchange)"],
         "not_decided": ["iso_camt053::import control structure (bounded family only)", "charges (add_charges) and currency exchange details", "the XML decoder (quick_xml / serde)"],
